@@ -82,7 +82,14 @@ fn work_units(call: &Call, cols: usize, rows: usize, lines_before: usize, lines_
             // one trim per call
             w + lines_before as u64 + lines_after as u64
         }
-        Call::Resize(c, r) => 4 * (lines_before as u64 * cols as u64 + lines_after as u64 * *c as u64 + (*c * *r) as u64 + area) + 64,
+        Call::Resize(c, r) => {
+            // re-wrapping to a narrower width splits every row into cols/c pieces and the pinned
+            // algorithm (Line::contract -> split_off) copies the remainder of the row for each piece:
+            // O(cells x cols/c).  That factor is part of the work model, not a finding (DESIGN 11).
+            let cells_before = lines_before as u64 * cols as u64;
+            let narrowing = 1 + (cols as u64) / (*c as u64).max(1);
+            4 * (cells_before * narrowing + lines_after as u64 * *c as u64 + (*c * *r) as u64 + area) + 64
+        }
     }
 }
 
